@@ -61,6 +61,7 @@ def cfg(tier):
         p_binary=0.08,
         p_cfun=15,
         p_meth=8,
+        iter_variants=("plain", "plain", "custom", "mapping", "lazy"),
     )
 
 
@@ -135,6 +136,19 @@ def run_case(case, stats):
                 )
             if set(rel.columns) != set().union(*[r.keys() for r in exp]) and exp:
                 raise Violation("columns-differ", f"{set(rel.columns)} vs row keys; program {fmt(node, leaves)}")
+        # evaluation is not allowed to feed on the stored payloads: after all of the executions above, a fresh execution
+        # of the root still gives the same rows (a lazy stored payload - ChainRowIterable leaf - that an execution extended
+        # in place would show here)
+        try:
+            once_more = env.run_iter(rels[id(prog)])
+        except Exception as e:
+            raise Violation("execute-raised", f"re-execution of the root after all prefixes were executed: {type(e).__name__}: {e}; program {fmt(prog, leaves)}", exc=e)
+        if once_more != expected:
+            raise Violation(
+                "rows-differ",
+                f"re-execution of the root after every prefix relation was executed: program {fmt(prog, leaves)}; tree {rels[id(prog)]}; expected {show_rows(expected)} got {show_rows(once_more)}",
+                reexecution=True,
+            )
         # a selection that guards, then a selection that is only defined on the guarded rows (floor division by the guarded
         # column): however the two are merged, executing must give the rows of applying them one after the other
         from vf.core.prog import schema
